@@ -261,7 +261,10 @@ Definition rules_links (nt : net) (e : elem) : list (N * fm) :=
   | KInter =>
     [ (16, FAll (mans e) (fun m => FAnds [FK m KMan; FEqO (minter m) (Some (uid e)); FNeO (mconn m) None]));
       (17, FAll (incoming e) (fun l => FAnds [FK l KLane; FInO (road l) (iroads e);
-               FEx (mans e) (fun m => FEqO (mconn m) (succ l));
+               (* the lane has a successor c; when c leads on (succ c <> None: a maneuver needs an end lane, rules 12/13),
+                  some maneuver of the intersection passes through c.  A connecting lane the map leaves without a
+                  successor carries no maneuver (the parser warns and skips it): nothing to reciprocate there. *)
+               FDef (succ l) (fun c => FOr (FEqO (succ c) None) (FEx (mans e) (fun m => FEqO (mconn m) (succ l))));
                FAll (mans l) (fun m => FIn (uid m) (mans e))]));
       (18, FAll (outgoing e) (fun l => FAnd (FK l KLane) (FInO (road l) (iroads e))));
       (19, FAll (iroads e) (fun r => FK r KRoad)) ]
